@@ -14,23 +14,29 @@ META = {
     "technique": "Coq proof (vm_compute sweeps with the bound in the statement + inductive lemmas) about a Gallina port of class Partition; "
                  "extracted-model correspondence (bit patterns) with /repo; proved-sound exact-rational tiling checker as oracle; end-to-end oracles",
     "text": "Gallina port of Partition::GetPartition/GetCachedPartition/PartitionFan/PartitionQuad/Reindex (double-precision rounding decisions ported with "
-            "PrimFloat, barycentrics computed both in binary64 and in exact Q by one code path). Theorems: tiles_ok_sound (checker => declarative tiling: "
-            "indices, every vertex used, boundary chain = subdivided outline, interior edges paired, positive areas summing to the outline area, outline "
-            "vertices exact, others strictly inside); partition_tiles_bounded (all n0>=n1>=n2>=1, n0<=24, exact arithmetic, eps=0), "
-            "partition_quad_tiles_bounded (first side shortest, sides<=10), get_partition_tiles_bounded (any order of divisions), get_partition_quad_rotation "
-            "(all sizes), float_pattern_tiles_bounded (n0<=12; quads<=5: binary64 pattern has the same triangles and tiles within 2^-44), fan_tiles (all n, "
-            "chain identity), quad_terminal_tiles_partial (<=10 per side), uniform_n_squared (n<=64), reindex_consistent (all n: backward run = reverse of "
-            "forward run) and reindex_two_triangles_bounded (shared edge cancels, divisions<=5, mirrored patterns included), set_tolerance_reports_max, "
-            "tolerance_ge_epsilon, simplify_tolerance_unchanged, set_epsilon_floor. Tie: every swept key is run through /repo's Partition (fresh and cached) "
-            "and compared bit for bit (triVert, vertBary, idx, sortedDivisions) with the extracted model; the extracted checker runs on the implementation's "
-            "arrays; Reindex is compared on random calls and composed on two triangles; Refine/RefineToLength/RefineToTolerance/Impl::Refine with random "
-            "edge divisions and Simplify/SetTolerance run end to end on generated meshes (n^2 counts, model-predicted triangle counts, retained vertices as "
-            "bit patterns, volume/area, brute-force distance to the input surface, references, Euler characteristic, halfedge pairing, tolerance = max(t, epsilon)).",
+            "PrimFloat, barycentrics computed both in binary64 and in exact Q by one code path), of Subdivide's offset arithmetic (edges, edgeOffset/interiorOffset "
+            "scans, per-triangle Reindex, vertBary owners, property-vertex slots; meshes without marked quads) and of the integer bookkeeping of CollapseEdge2/SwapEdge "
+            "(PairUp, UpdateVert, FormLoop, CollapseTri, RemoveIfFolded). ALL SIZES: fan_tiles, quad_terminal_tiles, partition_quad_tiles (terminal + recursive "
+            "strips, any value of the rounded `added`), partition_tiles (all n0>=n1>=n2>=1, given split_ok about the two double-precision numbers of the obtuse "
+            "branch) and partition_quad_pattern_tiles: whenever the ported function returns, the boundary chain of its triangles is the subdivided outline; "
+            "reindex_consistent; new_indices_once_edges/_interior (every new vertex index written exactly once); subdivided_outlines_balance (for any closed "
+            "oriented soup and any edge divisions the subdivided outlines cancel); simplify_slots_constant and simplify_counts (for every state, fuel, verdict and "
+            "operation sequence the triangle count never grows); collapse_tri_kills_tri; dedupe_adds_two; prop_slots_disjoint; tolerance facts "
+            "(set_tolerance_reports_max, tolerance_ge_epsilon, simplify_tolerance_unchanged, set_epsilon_floor). BOUNDED (exact rational geometry and definedness): "
+            "tiles_ok_sound + partition_tiles_bounded (n0<=24, eps=0), partition_quad_tiles_bounded (<=10), get_partition_tiles_bounded, float_pattern_tiles_bounded "
+            "(n0<=12: binary64 pattern tiles within 2^-44), uniform_n_squared (n<=64), reindex_two_triangles_bounded (<=5), split_ok_sweep (n0<=24). "
+            "Tie: every swept key is run through /repo's Partition (fresh and cached) and compared bit for bit with the extracted model; the extracted checker "
+            "runs on the implementation's arrays; Reindex on random calls + two-triangle composition; Impl::Subdivide with hashed edge divisions against the "
+            "ported Subdivide (triVerts, NumVert, vertBary owners); Impl::CollapseEdge2/SwapEdge random sequences against the ported bookkeeping (complete "
+            "halfedge state after every operation); Refine/RefineToLength/RefineToTolerance/Simplify/SetTolerance end to end (n^2 counts, model-predicted "
+            "counts, retained vertices as bit patterns, volume/area, distance to the input surface, references, Euler characteristic, pairing, tolerance).",
     "note": "Trusted: Coq kernel + vm_compute + PrimFloat (hardware binary64), extraction (ExtrOcamlBasic, ExtrOCamlFloats, ExtrOCamlInt63), the C++ harness. "
-            "Not proved: the recursive PartitionQuad case and the quad terminal case for unbounded sizes (bounded sweeps only); Subdivide's offset arithmetic "
-            "beyond the two-triangle composition; triangle-count monotonicity of SimplifyTopology2 and surface displacement <= t (decided on outputs: counts, "
-            "volume/area within 1e-10 relative, vertex-to-input-surface distance <= 2^-24 by a double-precision brute force); 'new vertex lies on the "
-            "interpolated surface' with tangents is not checked (only: original vertices do not move, topology, counts).",
+            "Not proved: that the pattern functions return for sizes beyond the sweeps (definedness depends on double-precision values) and split_ok beyond n0<=24; "
+            "exact geometry (positive areas, interior points) beyond the sweeps; subdivide_balances_partial keeps the hypothesis that each reindexed pattern "
+            "triangulates the global outline of its triangle (the vertex renaming of Reindex is verified only for divisions<=5 and on examples); marked quads and "
+            "keepInterior in Subdivide; 'dead triangles stay dead' needs the pairing invariant (C01); surface displacement <= t (decided on outputs: volume/area "
+            "within 1e-10 relative, vertex-to-input-surface distance <= 2^-24 by a double-precision brute force); 'new vertex lies on the interpolated surface' "
+            "with tangents is not checked (only: original vertices do not move, topology, counts).",
 }
 
 TRI_B, QUAD_B = 24, 10
@@ -191,6 +197,80 @@ def reindexes(cx, exe, drv):
             cx.broke("corr:C19/reindex#R %s" % k, "model and implementation differ: impl=%s model=%s" % (str(impl.get(k))[:300], str(model.get(k))[:300]))
     cx.cov["reindex"] = {"calls": len(lines), "matches": len(lines) - len(mism), "two_triangle_compositions": len(tuples), "unbalanced": len(bad)}
     return len(lines), len(mism)
+
+
+def subdivides(cx, exe, drv):
+    """Impl::Subdivide (tangent-free meshes, hashed edgeDivisions) against the ported offset arithmetic."""
+    rng = random.Random(cx.seed * 131 + 77)
+    lines = ["S %d %d %d %d" % (i, rng.choice([0, 1, 2, 3, 4, 5, 6, 7]), rng.randrange(1, 2 ** 31), rng.choice([2, 3, 4, 6, 9]))
+             for i in range(cx.pick(500, 8000))]
+    kl = lambda l: l.split()[1] if l.startswith("S ") else None
+    out_impl, crashes = vp.run_cases(exe, lines, kl, kl, timeout=cx.pick(300, 1500))
+    for cl, rc, err in crashes:
+        cx.violation("subdivide-crash", "Impl::Subdivide crashed or hung (rc=%s): %s" % (rc, err[-200:]), {"case": cl})
+    impl = {kl(l): l for l in out_impl.splitlines() if l.startswith("S ")}
+    feed = [l for l in impl.values() if " SKIP" not in l]
+    out_model = run_parallel(drv, feed, 8, timeout=cx.pick(600, 1700))
+    model = {kl(l): l for l in out_model.splitlines() if l.startswith("S ")}
+    n, mism, unbalanced = 0, 0, 0
+    for k, l in impl.items():
+        if " SKIP" in l:
+            continue
+        n += 1
+        a = l[l.index(" OUT "):].split(" VB ")[0].split()
+        own = l[l.index(" OWN"):].split()
+        m = model.get(k, "")
+        ma = m[m.index(" OUT "):m.index(" OWN")].split() if " OUT " in m and " OWN" in m else ["?"]
+        mo = m[m.index(" OWN"):].split() if " OWN" in m else ["?"]
+        if a == ma and own == mo:
+            continue
+        mism += 1
+        # oracle: is the implementation's subdivided soup closed, oriented, all vertices used?
+        v = list(map(int, a[2:2 + 3 * int(a[1])]))
+        tris = [tuple(v[i:i + 3]) for i in range(0, len(v), 3)]
+        nv2 = int(a[a.index("NV2") + 1])
+        used = set(v)
+        if not coef_equal(tris, []) or used != set(range(nv2)):
+            unbalanced += 1
+            if unbalanced <= 2:
+                cx.violation("subdivide-unbalanced",
+                             "Impl::Subdivide returned a soup that is not closed/oriented or leaves a vertex unused (case %s)" % k,
+                             {"case": [x for x in lines if kl(x) == k][0], "impl": l[:3000], "model": m[:3000]})
+        elif mism - unbalanced <= 2:
+            cx.broke("corr:C19/subdivide#S %s" % k, "ported Subdivide and Impl::Subdivide differ: impl=%s model=%s" % (" ".join(a)[:300], " ".join(ma)[:300]))
+    cx.cov["subdivide"] = {"cases": n, "matches": n - mism, "compared": "triVerts (halfedge starts after Subdivide), NumVert, vertBary owner triangles"}
+    return n, mism
+
+
+def edgeops(cx, exe, drv2):
+    """Impl::CollapseEdge2 (short merger) / Impl::SwapEdge, random sequences, against the ported bookkeeping."""
+    rng = random.Random(cx.seed * 211 + 5)
+    lines = ["X %d %d %d %d" % (i, rng.randrange(6), rng.randrange(1, 2 ** 31), rng.choice([3, 6, 10])) for i in range(cx.pick(150, 3000))]
+    kl = lambda l: l.split()[1].split(".")[0] if l.startswith("X ") else None
+    ko = lambda l: l.split()[1].split(".")[0] if l.startswith("X ") and l.split()[1].endswith(".end") else None
+    out_impl, crashes = vp.run_cases(exe, lines, kl, ko, timeout=cx.pick(200, 1500), max_restarts=20)
+    steps = [l for l in out_impl.splitlines() if l.startswith("X ") and " ST0 " in l]
+    out_model = run_parallel(drv2, steps, 8, timeout=cx.pick(600, 1700))
+    verdict = {l.split()[1]: l for l in out_model.splitlines() if l.startswith("X ")}
+    grew, diff = 0, 0
+    for l in steps:
+        t = l.split()
+        k = t[1]
+        live, live0 = int(t[t.index("LIVE") + 1]), int(t[t.index("LIVE0") + 1])
+        if live > live0:
+            grew += 1
+            if grew <= 2:
+                cx.violation("simplify-grows", "a CollapseEdge2/SwapEdge sequence increased the number of live triangles %d -> %d" % (live0, live),
+                             {"case": [x for x in lines if kl(x) == k.split(".")[0]][0], "step": k})
+        v = verdict.get(k, "")
+        if " OK " not in v:
+            diff += 1
+            if diff <= 2 and live <= live0:
+                cx.broke("corr:C19/edge_ops#%s" % k, "ported CollapseEdge2/SwapEdge and the implementation differ: %s" % v[:200])
+    cx.cov["edge_ops"] = {"sequences": len(lines), "operations_compared": len(steps), "matches": len(steps) - diff,
+                          "sequences_crashed_or_hung": len(crashes),
+                          "note": "random operation sequences ignore SimplifyTopology2's preconditions; a crash there is recorded, not reported"}
+    return len(steps), diff
 
 
 def gen_e2e(rng, count, crashy=0.0):
@@ -358,11 +438,13 @@ def e2e(cx, exe, drv, budget):
 
 def run(cx):
     cx.assumptions += [
-        "pattern theorems are exhaustive only up to the bounds in their statements (triangles n0<=24, quads<=10, Refine(n) n<=64, two-triangle composition<=5)",
+        "all-sizes pattern theorems are conditional on the ported function returning a result (definedness is shown by the sweeps: triangles n0<=24, quads<=10) and, in the obtuse branch, on split_ok (swept for n0<=24)",
+        "exact-geometry theorems (areas, positions) are exhaustive only up to the bounds in their statements; Refine(n) n<=64; two-triangle Reindex composition<=5",
         "the double-precision rounding decisions are evaluated by Coq's PrimFloat primitives (hardware binary64) - listed by Print Assumptions",
+        "subdivide_balances_partial assumes H_pattern (each reindexed pattern triangulates its triangle's global outline); Subdivide is modelled for meshes without marked quads, keepInterior=false",
+        "simplify_counts covers the operation sequences CollapseEdge2/SwapEdge (any verdicts); the geometric reject block and CleanupTopology/DedupeEdges are not modelled (DedupeEdge's growth is: +2 triangles)",
         "tolerance wrappers are modelled over an abstract total order (Z) standing for non-NaN doubles",
-        "SimplifyTopology2 itself is not modelled: triangle counts, volume/area (rel 1e-10) and vertex-to-surface distance (2^-24, double-precision brute force) are checked on outputs",
-        "with tangents only topology, counts and 'original vertices do not move' are checked, not that new vertices lie on the interpolated surface",
+        "surface displacement of Simplify and 'new vertices lie on the interpolated surface' are checked on outputs only (volume/area rel 1e-10, vertex-to-surface distance 2^-24)",
     ]
     cx.prove()
     # vp.parse_assumptions reads the header line "Axioms:" of a following Print Assumptions block as an
@@ -371,7 +453,9 @@ def run(cx):
     cx.broken = [(n, d) for n, d in cx.broken if not (n == "coq:axioms" and d.endswith("allow-list: Axioms"))]
     cx.cov["axioms_reported_by_Print_Assumptions"] = [a for a in cx.cov.get("axioms_reported_by_Print_Assumptions", []) if a != "Axioms"]
     cx.cov["trusted_base"] = [t for t in cx.cov.get("trusted_base", []) if t != "axiom: Axioms"]
-    mls = vp.coq_extract("ExtractC19", ["c19_model.ml"])
+    mls = vp.coq_extract("ExtractC19", ["c19_model.ml", "c19_simplify.ml"])
+    drv2 = vp.ocaml_build("c19_simplify_driver", [mls[1], os.path.join(vp.ROOT, "extract/c19_simplify_driver.ml")])
+    mls = mls[:1]
     drv = vp.ocaml_build("c19_driver", mls + [os.path.join(vp.ROOT, "extract/c19_driver.ml")],
                          packages=["coq-core.kernel"], flags=["-rectypes", "-thread"])
     exe = vp.build_harness("c19_partition", "seq", link_lib=True)
@@ -379,13 +463,17 @@ def run(cx):
     cx.log("partitions: %d keys, %d mismatches" % (n1, mism1))
     n2, mism2 = reindexes(cx, exe, drv)
     cx.log("reindex: %d calls, %d mismatches" % (n2, mism2))
+    n4, mism4 = subdivides(cx, exe, drv)
+    cx.log("subdivide: %d cases, %d mismatches" % (n4, mism4))
+    n5, mism5 = edgeops(cx, exe, drv2)
+    cx.log("edge ops: %d operations, %d mismatches" % (n5, mism5))
     budget = cx.pick(3000, 40000)
-    if mism1 or mism2 or cx.broken:
+    if mism1 or mism2 or mism4 or mism5 or cx.broken:
         budget *= 3      # search: the tie or a proof broke, look harder for a concrete failing input
     n3, nt3 = e2e(cx, exe, drv, budget)
-    cx.cov.update({"evaluations": n1 + n2 + n3, "distinct_nontrivial": nt1 + nt3,
+    cx.cov.update({"evaluations": n1 + n2 + n3 + n4 + n5, "distinct_nontrivial": nt1 + nt3,
                    "rule": "partition keys: every key of the proved range + random unsorted/rotated keys, non-trivial = at least one side divided; "
                            "end-to-end: distinct (family, shape, parameters, counts) whose operation changed the triangle count (or lowered the tolerance)",
                    "distribution": cx.cov["e2e"]["distribution"],
-                   "correspondence_mismatches": mism1 + mism2,
-                   "traces_validated_against_impl": (n1 - mism1) + (n2 - mism2)})
+                   "correspondence_mismatches": mism1 + mism2 + mism4 + mism5,
+                   "traces_validated_against_impl": (n1 - mism1) + (n2 - mism2) + (n4 - mism4) + (n5 - mism5)})
